@@ -13,7 +13,8 @@
 From Coq Require Import String NArith ZArith QArith Bool Arith Permutation List.
 From GT Require Import Base.UTree Spec.Obs Spec.Support Model.Support
      Proofs.SupportBase Proofs.SupportMTD Proofs.SupportClosed Proofs.SupportSpec Proofs.SupportDomain
-     Proofs.SupportInvariance Proofs.SupportReroot Model.EdgeIndex Proofs.SupportIndex.
+     Proofs.SupportInvariance Proofs.SupportReroot Model.EdgeIndex Proofs.SupportIndex
+     Spec.SupportW Model.SupportW Proofs.SupportW.
 From GT Require Model.Index Proofs.IndexSplit.
 Import ListNotations.
 Local Close Scope Q_scope.
@@ -257,6 +258,39 @@ Theorem tbe_edge_index_is_a_set_of_bipartitions :
               (r <> None <-> index_has (tip_names ref) (tbe_index boot) (below (snd ecq)) = true).
 Proof. exact tbe_index_lookup. Qed.
 Print Assumptions tbe_edge_index_is_a_set_of_bipartitions.
+
+(** * repetition = multiplicity
+    a collection given as (k, T) pairs (k consecutive copies of T): the closed forms the judge
+    evaluates for collections of thousands of trees are the model / the definitions on the
+    expanded list *)
+Theorem fbp_with_multiplicities :
+  forall ref w,
+    oerr (fbp ref (expand w)) = oerr (fbp_w ref w) /\
+    (oerr (fbp_w ref w) = "" -> fbp ref (expand w) = fbp_w ref w).
+Proof. exact fbp_expand. Qed.
+Print Assumptions fbp_with_multiplicities.
+
+Theorem tbe_with_multiplicities :
+  forall ref w,
+    oerr (tbe ref (expand w)) = oerr (tbe_w ref w) /\
+    (oerr (tbe_w ref w) = "" -> tbe ref (expand w) = tbe_w ref w).
+Proof. exact tbe_expand. Qed.
+Print Assumptions tbe_with_multiplicities.
+
+Theorem fbp_spec_with_multiplicities :
+  forall X A w, fbp_spec X A (expand w) = fbp_spec_w X A w.
+Proof. exact fbp_spec_expand. Qed.
+Print Assumptions fbp_spec_with_multiplicities.
+
+Theorem tbe_spec_with_multiplicities :
+  forall X A w, tbe_spec X A (expand w) = tbe_spec_w X A w.
+Proof. exact tbe_spec_expand. Qed.
+Print Assumptions tbe_spec_with_multiplicities.
+
+Theorem progress_with_multiplicities :
+  forall ref w, n_processed ref (expand w) = wn_processed ref w.
+Proof. exact n_processed_expand. Qed.
+Print Assumptions progress_with_multiplicities.
 
 (** * the hypotheses are satisfiable *)
 Example domain_inhabited : domain w_ref [w_boot].
